@@ -28,6 +28,7 @@ from harness import values as V
 from harness.core import cbool, clist, cnat, copt, cz, err_name
 
 PID = "C20"
+TRANSLATE = ["EqRepr.v"]     # translator tie: the row / column budget of display.py regenerated and re-proved
 PRELUDE = ("From Coq Require Import List ZArith.\nImport ListNotations.\n"
            "From Serif Require Import Base.PyVal Model.Repr Corr.C20.")
 FAILING = "C20.failing"
@@ -61,6 +62,9 @@ LEVEL_TEXT = ("theorems (all vectors / tables, all budgets): totality (for every
 LEVEL_NOTE = ("totality is proved relative to the declared list of partial primitives (see the assumptions); that "
               "list is the declared limit of this property")
 DESIGN_REF = "DESIGN.md §4 C20"
+TECHNIQUE = ("Rocq (Coq 8.16) proof over an executable model of repr (totality relative to declared partial primitives, preview / footer / "
+             "header exactness); the row and column budget regenerated from source and re-proved; differential correspondence check "
+             "(vm_compute case files)")
 
 MAX_HEAD_COLS = 5
 DEFAULT_ROWS = 12
